@@ -85,9 +85,26 @@ func (c *hcase) witness(magic uint32) map[string]interface{} {
 	if len(c.data) > 4096 {
 		hexs = vf.Hex(c.data[:4096]) + fmt.Sprintf("…(%d bytes, all-zero tail unless stated)", len(c.data))
 	}
-	if c.kind == 'P' {
+	if c.kind == 'L' {
+		// data = u32 length ‖ schedule (JSON) ‖ the frames the remote side sends
+		w["kind"] = "link schedule"
+		if len(c.data) >= 4 {
+			if n := int(binary.LittleEndian.Uint32(c.data)); 4+n <= len(c.data) {
+				w["schedule"] = json.RawMessage(c.data[4 : 4+n])
+				w["stream_hex"] = vf.HexTrunc(c.data[4+n:], 8192)
+				w["bytes"] = len(c.data) - 4 - n
+			}
+		}
+		return w
+	}
+	if c.kind == 'A' && uint64(len(c.data)) < c.declLen {
+		// a large allocation-oracle payload: the tag names the base recipe (shape, n, length) and the mutation
+		hexs = vf.Hex(c.data) + fmt.Sprintf("…(first %d of %d bytes; the rest continues the well-formed base named in the tag)", len(c.data), c.declLen)
+		w["bytes"] = c.declLen
+	}
+	if c.kind == 'P' || c.kind == 'A' {
 		w["kind"], w["cmd"], w["payload_hex"] = "payload with valid header", c.cmd, hexs
-		if len(c.data) <= 4096 {
+		if len(c.data) <= 4096 && c.kind == 'P' {
 			w["frame_hex"] = vf.Hex(frame(magic, c.cmd, c.data))
 		}
 		w["magic"] = magic
@@ -219,6 +236,15 @@ func (c *child) violation(key, what string, extra map[string]interface{}) {
 	w["case_index"] = c.idx - 1
 	w["batch"] = c.batch
 	proc.AppendJSONLine(c.out, map[string]interface{}{"t": "viol", "key": key, "what": what, "witness": w})
+}
+
+func (c *child) calib(row calibRow) {
+	proc.AppendJSONLine(c.out, map[string]interface{}{"t": "calib", "calib": row})
+}
+
+// inconclusive reports an infrastructure problem of one case (never a verdict).
+func (c *child) inconclusive(what string) {
+	proc.AppendJSONLine(c.out, map[string]interface{}{"t": "incon", "what": what})
 }
 
 func (c *child) flush(final bool) {
@@ -828,6 +854,10 @@ func childMain(specStr string) {
 			c.streamBatch(rng)
 		case "cross":
 			c.crossBatch(rng)
+		case "alloc":
+			c.allocBatch(rng)
+		case "link":
+			c.linkBatch(rng)
 		}
 	}()
 	c.secs = time.Since(t0).Seconds() // reported for tuning only, never part of a verdict
